@@ -792,8 +792,16 @@ func c11Close(p *load.Program, run *report.Run) {
 		"fromWriter/send": {"writer"}, "fromWriter/recv": {"Close", "Flush", "NewConn"}, "fromWriter/close": {"writer"},
 	}
 	for k, w := range want {
-		var got []string
+		// the functions that build a Conn (NewConn and variants with other sizes) are one role
+		gotSet := map[string]bool{}
 		for f := range roles[k] {
+			if strings.HasPrefix(f, "NewConn") {
+				f = "NewConn"
+			}
+			gotSet[f] = true
+		}
+		var got []string
+		for f := range gotSet {
 			got = append(got, f)
 		}
 		sort.Strings(got)
